@@ -2,6 +2,7 @@
 // through MIP_Problem, length_error / invalid_argument through the common entry points, exactly-once deletion.
 // Same line protocol as the generated drivers (cif_support.hh).
 #include "cif_support.hh"
+#include <ctime>
 
 static ppl_Polyhedron_t cube(unsigned n) {
   ppl_Polyhedron_t p; ppl_new_C_Polyhedron_from_space_dimension(&p, n, 0);
@@ -57,6 +58,68 @@ int main(int argc, char** argv) {
     int after = ppl_Polyhedron_get_generators(q2, &gs);
     std::printf("W|ppl_set_timeout|%d|%d|%s|%d|%d|%d|%d\n", s, r, h.c_str(), next, rs, after, usable);
     ppl_delete_Polyhedron(p); ppl_delete_Polyhedron(q); ppl_delete_Polyhedron(q2);
+  }
+  // ---- (4b) call SEQUENCES of the four registration entries (model: CIface/Timeouts.v).
+  //   T ppl_set_timeout(1 hour)   t ppl_reset_timeout   H ppl_set_deterministic_timeout(huge)   S ...(1: exceeded by any conversion)
+  //   d ppl_reset_deterministic_timeout   C a conversion (cube of dimension 8 -> generators)
+  //   observed: the outcome of every C (0, or -11 with the handler that ran: D deterministic / W wall clock), and which watchdog
+  //   objects exist at the end, through the block ledger (bW / bD blocks per armed wall-clock / deterministic watchdog);
+  //   then both are reset and the ledger must be back at its base (an overwritten, never deleted watchdog shows up here).
+  {
+    unsigned seqseed = argc > 2 ? (unsigned) atoi(argv[2]) : 1;
+    auto op = [&](char c, std::string& out) -> int {
+      switch (c) {
+      case 'T': return ppl_set_timeout(360000);
+      case 't': return ppl_reset_timeout();
+      case 'H': return ppl_set_deterministic_timeout(1000000, 20);
+      case 'S': return ppl_set_deterministic_timeout(1, 0);
+      case 'd': return ppl_reset_deterministic_timeout();
+      default: {
+        ppl_Polyhedron_t p = cube(8); ppl_const_Generator_System_t gs;
+        cif::seen.clear(); cif::kinds.clear();
+        int r = ppl_Polyhedron_get_generators(p, &gs);
+        char buf[32]; std::snprintf(buf, sizeof buf, "%s%d%s", out.empty() ? "" : ",", r, cif::kinds.c_str());
+        out += buf;
+        ppl_delete_Polyhedron(p);
+        return 0; }
+      }
+    };
+    std::string out; out.reserve(512);
+    const char* warm = "TtHdSCdTHCtd";
+    for (const char* q = warm; *q; ++q) op(*q, out);
+    ppl_reset_timeout(); ppl_reset_deterministic_timeout();
+    long b0 = cif::live; ppl_set_timeout(360000); long bW = cif::live - b0; ppl_reset_timeout();
+    long b1 = cif::live; ppl_set_deterministic_timeout(1000000, 20); long bD = cif::live - b1; ppl_reset_deterministic_timeout();
+    std::printf("Q0|calibration|bW=%ld|bD=%ld|back=%d\n", bW, bD, (cif::live == b0) ? 1 : 0);
+    std::vector<std::string> seqs;
+    const char alpha[] = "TtHSdC";
+    for (int a = 0; a < 6; ++a) { seqs.push_back(std::string(1, alpha[a]));
+      for (int b = 0; b < 6; ++b) { seqs.push_back(std::string(1, alpha[a]) + alpha[b]);
+        for (int c = 0; c < 6; ++c) seqs.push_back(std::string(1, alpha[a]) + alpha[b] + alpha[c]); } }
+    cif::seed(seqseed);
+    for (int k = 0; k < 60; ++k) { std::string q; int n = 4 + (int) cif::rnd(4); for (int i = 0; i < n; ++i) q += alpha[cif::rnd(6)]; seqs.push_back(q); }
+    seqs.push_back("SHC"); seqs.push_back("THSCtC"); seqs.push_back("SCSCHHC");
+    for (size_t i = 0; i < seqs.size(); ++i) {
+      out.clear();
+      long base = cif::live; int bad = 0;
+      for (size_t j = 0; j < seqs[i].size(); ++j) if (op(seqs[i][j], out) != 0) ++bad;
+      long delta = cif::live - base;
+      int r1 = ppl_reset_timeout(), r2 = ppl_reset_deterministic_timeout();
+      std::printf("Q|%s|%s|%ld|%ld|%ld|%d|%d\n", seqs[i].c_str(), out.c_str(), delta, bW, bD, (cif::live == base) ? 1 : 0, bad + (r1 != 0) + (r2 != 0));
+    }
+    // the wall clock must still fire when a deterministic threshold is registered AFTER it (budget: seconds of CPU)
+    {
+      ppl_const_Generator_System_t gs; ppl_Polyhedron_t p = cube(big + 4);
+      cif::seen.clear(); cif::kinds.clear();
+      int s1 = ppl_set_timeout(3), s2 = ppl_set_deterministic_timeout(1, 31);
+      clock_t t0 = clock();
+      int r = ppl_Polyhedron_get_generators(p, &gs);
+      long ms = (long) ((clock() - t0) * 1000 / CLOCKS_PER_SEC);
+      std::string k = cif::kinds;
+      ppl_reset_timeout(); ppl_reset_deterministic_timeout();
+      std::printf("V|wall-then-deterministic|%d|%d|%d|%s|%ld\n", s1, s2, r, k.c_str(), ms);
+      ppl_delete_Polyhedron(p);
+    }
   }
   // invalid arguments of the setters themselves
   cif::run_plain("ppl_set_deterministic_timeout", "weight0",
